@@ -8,24 +8,41 @@ import SasLexer.Proofs.Model.DiscAttr
 comment channel; `WS`, `CatchAll` and the `%str/%nrstr` keywords are always hidden; besides them only `COLON` and
 the two parentheses may be hidden; everything else is on the default channel.
 
+(Second table, same discipline: `payKindOK` of `Spec/ChanTable.lean` — which kind of payload a type carries.)
+
 `ChanR p Q`: whatever the responses (mode-stack reads restricted to modes that satisfy `modeOK`: an
 `ExpectSymbol(ty, ch)` on the stack has `chanOK ch ty`), every token the program emits, retypes or inserts obeys
 the table, every mode it pushes satisfies `modeOK`, and every value it returns satisfies `Q`.
 -/
 namespace SasLexer
 
-/-- a type that lives on the default channel only or also -/
-def plainTy (ty : TokenType) : Bool := chanOK .DEFAULT ty
+/-- the payload an emit site hands over, before the payload register is read: the register holds nothing or a
+string payload (`PReg`), so `.reg` is admissible exactly for the string families -/
+def paySpecOK (ty : TokenType) : PaySpec → Bool
+  | .none => payKindOK ty .none
+  | .int v => payKindOK ty (.int v)
+  | .float b => payKindOK ty (.float b)
+  | .reg => isStrTy ty && payKindOK ty .none
+
+/-- what an emit site owes: channel table and payload-kind table -/
+def tokOK (ch : Channel) (ty : TokenType) (p : PaySpec) : Bool := chanOK ch ty && paySpecOK ty p
+
+/-- a type that may appear on the default channel without payload -/
+def plainTy (ty : TokenType) : Bool := tokOK .DEFAULT ty .none
+
+/-- retyping keeps the payload: both types must accept the same kinds -/
+def sameKinds (e n : TokenType) : Bool :=
+  isStrTy e == isStrTy n && isIntTy e == isIntTy n && isFloatTy e == isFloatTy n
 
 def modeOK : Mode → Prop
-  | .expectSymbol ty ch => chanOK ch ty = true
+  | .expectSymbol ty ch => tokOK ch ty .none = true
   | _ => True
 
 def cOkCh : Op → Prop
-  | .emitToken ch ty _ => chanOK ch ty = true
-  | .emitTokenAtMark ch ty _ => chanOK ch ty = true
-  | .updateLastToken ch ty _ => chanOK ch ty = true
-  | .retypeLastDefault _ n => plainTy n = true
+  | .emitToken ch ty p => tokOK ch ty p = true
+  | .emitTokenAtMark ch ty p => tokOK ch ty p = true
+  | .updateLastToken ch ty p => tokOK ch ty p = true
+  | .retypeLastDefault e n => plainTy n = true ∧ sameKinds e n = true
   | .pushMode m => modeOK m
   | .modifyTop f => ∀ m, modeOK m → modeOK (f m)
   | .modifyAt _ f => ∀ m m', modeOK m → f m = some m' → modeOK m'
@@ -100,6 +117,8 @@ macro_rules
       | (first $[| apply $ls]*)
       | trivial
       | (show chanOK _ _ = true; decide)
+      | (show tokOK _ _ _ = true; decide)
+      | (show sameKinds _ _ = true; decide)
       | (show plainTy _ = true; decide)
       | refine ⟨?_, ?_⟩
       | apply ChanR.ite_intro
